@@ -7,20 +7,18 @@ that is vacant (or holds a Failed/Succeeded pod, which it first deletes) and a d
 desired set — in that same reconcile, whatever the health of the other pods — while the rolling update still takes down at
 most one pod. `C14` is the monitor of `Spec/Reconcile.lean`; the theorem is stated under exactly the preconditions under which
 `monitorRc` evaluates it (`Parallel`, empty fault plan, not deleting, `wfSnapshot`), plus what the driver guarantees by
-construction (pod ids are their positions, fewer than `freshId` pods — `classify` looks pods up by id) and the C15 ranges
-(ordinals and replica count below `MaxInt32`), which are what makes the outcome `.ok` rather than a panic. -/
+construction (pod ids are their positions, fewer than `freshId` pods — `classify` looks pods up by id). -/
 namespace Asts.C14
 open Asts.L1c
 
 theorem C14_holds (v : SetView) (cur upd : String) (pods : List Pod) (f : Faults) (r : Int)
     (hr : v.replicas = some r) (h0 : 0 ≤ r)
     (hpar : v.parallel = true) (hf : f = []) (hdel : v.deleting = false) (hwf : wfSnapshot pods = true)
-    (hid : ∀ (i : Nat) (p : Pod), pods[i]? = some p → p.id = i) (hlen : pods.length ≤ freshId)
-    (hb : (maxReplicaAndSlots r v.slots).1 ≤ maxInt32) (hord : ∀ p ∈ pods, p.ord < maxInt32) :
+    (hid : ∀ (i : Nat) (p : Pod), pods[i]? = some p → p.id = i) (hlen : pods.length ≤ freshId) :
     (updateStatefulSet v cur upd pods f).2 = .ok ∧
     C14 v pods (observe (updateStatefulSet v cur upd pods f).1.acts) = true := by
   subst hf
-  exact updateStatefulSet_par v cur upd pods r hr h0 hpar hdel (snap_of_wf hwf hid hlen) hb hord
+  exact updateStatefulSet_par' v cur upd pods r hr h0 hpar hdel (snap_of_wf hwf hid hlen)
 
 /-- `Prop` reading: the creations are exactly (and in order) the desired ordinals that are vacant or hold a Failed/Succeeded
     pod; the scale-in deletions are, up to order, exactly the non-terminating pods outside the desired set; and at most one
@@ -28,14 +26,13 @@ theorem C14_holds (v : SetView) (cur upd : String) (pods : List Pod) (f : Faults
 theorem C14_prop (v : SetView) (cur upd : String) (pods : List Pod) (f : Faults) (r : Int)
     (hr : v.replicas = some r) (h0 : 0 ≤ r)
     (hpar : v.parallel = true) (hf : f = []) (hdel : v.deleting = false) (hwf : wfSnapshot pods = true)
-    (hid : ∀ (i : Nat) (p : Pod), pods[i]? = some p → p.id = i) (hlen : pods.length ≤ freshId)
-    (hb : (maxReplicaAndSlots r v.slots).1 ≤ maxInt32) (hord : ∀ p ∈ pods, p.ord < maxInt32) :
+    (hid : ∀ (i : Nat) (p : Pod), pods[i]? = some p → p.id = i) (hlen : pods.length ≤ freshId) :
     let acts := observe (updateStatefulSet v cur upd pods f).1.acts
     let D := desired r v.slots
     createOrds acts = D.filter (fun o => match podAt pods o with | none => true | some p => p.failed || p.succeeded) ∧
     (scaleDeletes D pods acts).Perm (((condemnedSpec D pods).filter (fun c => !c.terminating)).map (·.ord)) ∧
     (updateDeletes D pods acts).length ≤ 1 := by
-  have h := (C14_holds v cur upd pods f r hr h0 hpar hf hdel hwf hid hlen hb hord).2
+  have h := (C14_holds v cur upd pods f r hr h0 hpar hf hdel hwf hid hlen).2
   have hrep : replicasOf v = r := by simp [replicasOf, hr]
   simp only [Asts.C14, hrep, Bool.and_eq_true, beq_iff_eq, decide_eq_true_eq] at h
   refine ⟨h.1.1, ?_, h.2⟩
@@ -59,7 +56,6 @@ def exView : SetView :=
     generation := 1, stCurrentReplicas := 0 }
 
 example : exView.replicas = some 4 ∧ wfSnapshot exPods = true ∧
-    (maxReplicaAndSlots 4 exView.slots).1 ≤ maxInt32 ∧ (∀ p ∈ exPods, p.ord < maxInt32) ∧
     createOrds (observe (updateStatefulSet exView "a" "b" exPods []).1.acts) = [2, 3, 4] ∧
     scaleDeletes (desired 4 [1]) exPods (observe (updateStatefulSet exView "a" "b" exPods []).1.acts) = [7, 1] := by
   decide
